@@ -218,6 +218,13 @@ class World(object):
         self.last_url = {}
 
     def step(self, st, viol, counters, trace):
+        try:
+            self._step(st, viol, counters, trace)
+        except Exception as exc:
+            # a signer that cannot sign (or a verification that blows up) after some history is a broken key binding, not a harness problem
+            viol.append({"key": "C15/operation-fails-after-history:" + st[0], "what": "history %r: step %r raised %s: %s" % (trace, st, type(exc).__name__, str(exc)[:160])})
+
+    def _step(self, st, viol, counters, trace):
         ents = self.ctx.ents
         op, e = st[0], st[1]
         trace.append(list(st))
